@@ -414,7 +414,27 @@ def construct_header(props, body_size):
 # between cases so that accepted inputs are also explored right after a
 # refused encode / a failed decode (retained scratch state would show).
 
-_BAD_FRAMES = [b'\x01\x00\x01\x00\x00\x00\x05\x00\x32\x00\x0a\x00\xce',
+def _bad_header():
+    # content header: content_type 'evil/thing' decodes, then the headers
+    # table holds an unknown type tag -> fails after one property was read
+    props = (b'\xa0\x00' + b'\x0aevil/thing' +
+             b'\x00\x00\x00\x04\x01k?\x00')
+    payload = b'\x00\x3c\x00\x00' + b'\x00' * 7 + b'\x09' + props
+    return (b'\x02\x00\x01' + len(payload).to_bytes(4, 'big') + payload +
+            b'\xce')
+
+
+def _bad_method():
+    # Queue.Declare: queue 'stale-q', the bits and one table entry decode,
+    # then the arguments table holds an unknown type tag
+    args = (b'\x00\x00' + b'\x07stale-q' + b'\x1f' +
+            b'\x00\x00\x00\x09\x01kb\x05\x01z?\x00\x00')
+    payload = b'\x00\x32\x00\x0a' + args
+    return (b'\x01\x00\x01' + len(payload).to_bytes(4, 'big') + payload +
+            b'\xce')
+
+
+_BAD_FRAMES = [_bad_header(), _bad_method(),b'\x01\x00\x01\x00\x00\x00\x05\x00\x32\x00\x0a\x00\xce',
                b'\x02\x00\x01\x00\x00\x00\x0f\x00\x3c\x00\x00' + b'\x00' * 8 +
                b'\x80\x00\x05\xce',
                b'\x01\x00\x01\x00\x00\x00\x0c\x00\x32\x00\x0a\x00\x00\x01q'
@@ -451,9 +471,12 @@ def disturb():
         lambda: f.marshal(h.ContentHeader(0, 1, c.Basic.Properties(
             content_type='x', priority=999)), 1),
         lambda: c.Exchange.Declare(exchange='bad*name'),
-        lambda: f.unmarshal(_BAD_FRAMES[0]),
-        lambda: f.unmarshal(_BAD_FRAMES[1]),
         lambda: f.unmarshal(_BAD_FRAMES[2]),
+        lambda: f.unmarshal(_BAD_FRAMES[3]),
+        lambda: f.unmarshal(_BAD_FRAMES[4]),
+        # last: the two decodes that fail after part of the frame was read
+        lambda: f.unmarshal(_BAD_FRAMES[1]),
+        lambda: f.unmarshal(_BAD_FRAMES[0]),
     )
     for attempt in attempts:
         try:
